@@ -702,3 +702,26 @@ Definition shape_eqb (a b : shape) : bool :=
   Bool.eqb (s_hn a) (s_hn b) && Bool.eqb (s_rx a) (s_rx b) && Bool.eqb (s_cr a) (s_cr b)
   && Bool.eqb (s_la a) (s_la b) && Bool.eqb (s_ra a) (s_ra b) && Bool.eqb (s_wild a) (s_wild b)
   && Bool.eqb (s_mc a) (s_mc b).
+
+(* --- correspondence helpers: the crate's parsed fields against the model of the parser, and
+   against the declarative reading of the text *)
+Definition obool_is (o : option bool) (b : bool) : bool :=
+  Bool.eqb (match o with Some x => x | None => true end) b.
+Definition fields_agree (line : str) (mask : N) (filter hostname : option str) : bool :=
+  let pf := parse_line line in
+  shape_eqb (pf_shape pf) (shape_of_mask mask)
+  && ostr_eqb (pf_filter pf) filter && ostr_eqb (pf_hostname pf) hostname
+  && obool_is (pf_http pf) (has mask M_FROM_HTTP) && obool_is (pf_https pf) (has mask M_FROM_HTTPS)
+  && (if pf_ws pf then has mask M_FROM_WEBSOCKET else true).
+Definition text_tie (line : str) (mask : N) (filter hostname : option str) : bool :=
+  let sh := shape_of_mask mask in
+  implb (nondegenerate_text line && negb (host_right_pipe line))
+        (wf_fields sh filter hostname && nondegenerate_fields sh filter hostname
+         && past_eqb (ast_of_fields sh filter hostname) (ast_of_text line)).
+(* the L0 reading of the text against the implementation's answer [impl], outside the carve-outs *)
+Definition text_ref_agrees (line : str) (mask : N) (filter hostname : option str)
+           (r : request) (hs : nat) (impl : bool) : bool :=
+  implb (nondegenerate_text line && negb (host_right_pipe line) && wf_requestb r hs
+         && negb (suffix_mid_label_case (shape_of_mask mask) filter hostname r))
+        (Bool.eqb (ref_matchb (ast_of_text line) (lower_str (r_url r)) (r_host r) hs) impl).
+Definition len_in (s : str) (lens : list N) : bool := memN (N.of_nat (length s)) lens.
